@@ -116,6 +116,28 @@ impl Write for Sink {
     }
 }
 
+/// Holds the writer under test. If library code panics (say, inside a flush), unwinding must not run `Writer::drop` - it flushes
+/// again, a second panic while panicking aborts the whole check process, and the first panic (the finding) would be lost.
+pub struct Held(Option<Writer<'static>>);
+impl std::ops::Deref for Held {
+    type Target = Writer<'static>;
+    fn deref(&self) -> &Writer<'static> {
+        self.0.as_ref().unwrap()
+    }
+}
+impl std::ops::DerefMut for Held {
+    fn deref_mut(&mut self) -> &mut Writer<'static> {
+        self.0.as_mut().unwrap()
+    }
+}
+impl Drop for Held {
+    fn drop(&mut self) {
+        if std::thread::panicking() {
+            std::mem::forget(self.0.take());
+        }
+    }
+}
+
 pub fn long_string(len: u32, seed: u8) -> String {
     let mut s = String::with_capacity(len as usize);
     let mut x = (seed as u32).wrapping_mul(2654435761u32) | 1;
@@ -242,7 +264,7 @@ pub fn run_case(c: &Case, buf: usize, buffered: bool) -> CaseResult {
     let mut model: Vec<u8> = Vec::new();
     let mut checked = 0usize;
     {
-        let mut w = Writer::new(Box::new(Sink { spec: c.sink.clone(), st: state.clone(), consecutive: 0, burst_left: 0 }));
+        let mut w = Held(Some(Writer::new(Box::new(Sink { spec: c.sink.clone(), st: state.clone(), consecutive: 0, burst_left: 0 }))));
         for (i, op) in c.ops.iter().enumerate() {
             let pending = model.len() - state.borrow().log.len();
             let text = render(op);
@@ -313,7 +335,7 @@ pub fn run_case(c: &Case, buf: usize, buffered: bool) -> CaseResult {
         if c.unwind {
             // the writer goes out of scope while the stack unwinds (resume_unwind: no panic hook, no message)
             let r = std::panic::catch_unwind(std::panic::AssertUnwindSafe(move || {
-                let _w = w;
+                let _w = w.0.take().unwrap();
                 std::panic::resume_unwind(Box::new("harness: unwinding on purpose"));
             }));
             debug_assert!(r.is_err());
